@@ -81,7 +81,14 @@ impl StarkConfig {
             .validate(log_eval_domain_size, self.n_verifier_friendly_commitment_layers)?;
 
         // Validate Fri config.
-        self.fri.validate(self.log_n_cosets, self.n_verifier_friendly_commitment_layers)?;
+        let log_expected_input_degree =
+            self.fri.validate(self.log_n_cosets, self.n_verifier_friendly_commitment_layers)?;
+        // The FRI input is the DEEP quotient over the evaluation domain: its degree bound is the
+        // trace length.
+        ensure!(
+            log_expected_input_degree == self.log_trace_domain_size,
+            Error::FriInputDegreeMismatch
+        );
         Ok(())
     }
 }
@@ -107,6 +114,8 @@ pub enum Error {
     InsufficientSecurity,
     #[error("value out of bounds {min} - {max}")]
     OutOfBounds { min: u64, max: u64 },
+    #[error("fri input degree does not match the trace domain size")]
+    FriInputDegreeMismatch,
 }
 
 #[cfg(not(feature = "std"))]
@@ -129,4 +138,6 @@ pub enum Error {
     InsufficientSecurity,
     #[error("value out of bounds {min} - {max}")]
     OutOfBounds { min: u64, max: u64 },
+    #[error("fri input degree does not match the trace domain size")]
+    FriInputDegreeMismatch,
 }
